@@ -89,8 +89,34 @@ func idsOf(ms []rtcm.Message) []uint64 {
 // additions, which no run could execute one by one).  Values sit just below
 // powers of two where fixed-width counters wrap; 2^63 is left out (unreachable
 // in any deployment, and the code says so).
+// indexedByCounter reports whether the queue under test keeps its messages in
+// the exported map under keys taken from the exported position counter (the
+// shipped implementation).  Only then does setting the counter stand for a
+// longer history; a re-implementation that ignores or re-purposes those fields
+// is left alone.
+func indexedByCounter() bool {
+	q := cq.NewCircularQueue(2)
+	if q.Items == nil || q.NextIndex != 0 {
+		return false
+	}
+	q.Add(msgWithID(1))
+	if _, ok := q.Items[0]; !ok || len(q.Items) != 1 || q.NextIndex != 1 {
+		return false
+	}
+	q.NextIndex = 40
+	q.Add(msgWithID(2))
+	_, ok := q.Items[40]
+	return ok && q.NextIndex == 41 && len(q.Items) == 2
+}
+
+var ffApplicable = indexedByCounter()
+
 func fastForward(t *rt.Tape, o *hx.Outcome) int {
 	if t.SW(3, 1) == 0 {
+		return 0
+	}
+	if !ffApplicable {
+		o.Probe("fast-forward-not-applicable(queue not indexed by its exported counter)")
 		return 0
 	}
 	o.Fault("fast-forwarded-history")
@@ -273,7 +299,7 @@ func runC18Sequential(c *hx.Ctx, o *hx.Outcome, n, ff int) *hx.Outcome {
 	snapEvery := 1 + t.S(50)
 	o.Probe("sequential-long-runs")
 	warpAt, warpTo := -1, 0
-	if t.SBool(1, 3) {
+	if t.SBool(1, 3) && ffApplicable {
 		// a fast-forward in the middle of the history, after some snapshots
 		warpAt = 1 + t.S(total)
 		warpTo = threshold(t, o) - 1 - t.S(2*n+4)
